@@ -346,22 +346,22 @@ def body_groups(table):
         pdb, cif = emit_pdb(table), emit_cif(table)
         f = io.StringIO(pdb)
         f.name = "x.pdb"
-        views["v1/pdb"] = sorted((r.auth.chain, r.auth.number, r.icode, tuple(a.name for a in r.atoms)) for r in read_3d_structure(f).residues)
+        views["v1/pdb"] = sorted((r.auth.chain, r.auth.number, r.icode or "", tuple(a.name for a in r.atoms)) for r in read_3d_structure(f).residues)
         d = tempfile.mkdtemp(prefix="verif_c15_")
         p = os.path.join(d, "x.cif")
         with open(p, "w") as fh:
             fh.write(cif)
         with open(p) as fh:
-            views["v1/cif"] = sorted((r.auth.chain, r.auth.number, r.icode, tuple(a.name for a in r.atoms)) for r in read_3d_structure(fh).residues)
+            views["v1/cif"] = sorted((r.auth.chain, r.auth.number, r.icode or "", tuple(a.name for a in r.atoms)) for r in read_3d_structure(fh).residues)
         os.remove(p)
         os.rmdir(d)
         for tag, df, col in (("v2/pdb", parse_pdb_atoms(pdb), "name"), ("v2/cif", parse_cif_atoms(cif), "auth_atom_id")):
-            views[tag] = sorted((r.chain_id, r.residue_number, r.insertion_code, tuple(r.atoms[col].tolist())) for r in Structure(df).residues)
+            views[tag] = sorted((r.chain_id, r.residue_number, r.insertion_code or "", tuple(r.atoms[col].tolist())) for r in Structure(df).residues)
     except Exception as e:  # noqa: BLE001
         problems.append(f"exception {type(e).__name__}: {e}")
     want = []
     for k, (c, n, i) in enumerate(table):
-        key = (CH[c], NUM[n], IC[i] or None)
+        key = (CH[c], NUM[n], IC[i])
         if want and want[-1][:3] == key:
             want[-1] = key + (want[-1][3] + (ANAMES[k],),)
         else:
